@@ -6,7 +6,7 @@ from lib.coqterm import cbytes
 
 ID = "C09"
 QUICK_N = 1500
-THOROUGH_N = 20000
+THOROUGH_N = 12000
 SHARD = 250
 COQ_PRELUDE = ""
 RULE = ("a case is a layer script (the commands the top layer answers to its n-th event: OpenConnection to one of 3 addresses "
